@@ -329,8 +329,94 @@ pub fn other_keys(ctx: &mut Ctx, base: &[u8], creds: &RefCreds, rng: &mut crate:
     }
 }
 
+/// The public primitives validation is made of (`MessageIntegrity::{compute,verify}`,
+/// `MessageIntegritySha256::{compute,verify}`) against the independent HMACs: any data, keys shorter
+/// than, equal to and longer than the hash's block size, every legal truncation, damaged values.
+pub fn check_primitives(ctx: &mut Ctx, data: &[u8], key: &[u8], damage: u32) {
+    use stun_types::attribute::{MessageIntegrity, MessageIntegritySha256};
+    ctx.eval();
+    let w = || json!({"kind": "primitive", "data": hex(data), "key": hex(key), "damage": damage});
+    let want1 = crate::refimpl::crypto::hmac_sha1(key, data);
+    let want2 = crate::refimpl::crypto::hmac_sha256(key, data);
+    let r = guard(|| {
+        let c1 = MessageIntegrity::compute(data, key).map_err(|e| format!("{e:?}"));
+        let c2 = MessageIntegritySha256::compute(data, key).map_err(|e| format!("{e:?}"));
+        let v1 = MessageIntegrity::verify(data, key, &want1).is_ok();
+        let mut bad1 = want1;
+        bad1[(damage as usize / 8) % 20] ^= 1 << (damage % 8);
+        let v1bad = MessageIntegrity::verify(data, key, &bad1).is_ok();
+        let mut v2 = vec![];
+        for n in [16usize, 20, 24, 28, 32] {
+            let good = MessageIntegritySha256::verify(data, key, &want2[..n]).is_ok();
+            let mut bad = want2[..n].to_vec();
+            bad[(damage as usize / 8) % n] ^= 1 << (damage % 8);
+            let badr = MessageIntegritySha256::verify(data, key, &bad).is_ok();
+            // the last byte in particular (a comparison that stops early)
+            let mut bad_last = want2[..n].to_vec();
+            bad_last[n - 1] ^= 1 << (damage % 8);
+            let badl = MessageIntegritySha256::verify(data, key, &bad_last).is_ok();
+            v2.push((n, good, badr, badl));
+        }
+        // the SHA-1 HMAC offered where the SHA-256 one is expected, and the other way round
+        let cross = MessageIntegritySha256::verify(data, key, &want1[..]).is_ok();
+        let mut w2 = [0u8; 20];
+        w2.copy_from_slice(&want2[..20]);
+        let cross2 = MessageIntegrity::verify(data, key, &w2).is_ok();
+        (c1, c2, v1, v1bad, v2, cross, cross2)
+    });
+    match r {
+        Err(p) => ctx.violation("C04", "no-panic", "MessageIntegrity::{compute,verify}", "primitive", w, "value".into(), format!("panic: {} at {}", p.msg, p.loc)),
+        Ok((c1, c2, v1, v1bad, v2, cross, cross2)) => {
+            if c1 != Ok(want1) {
+                ctx.violation("C04", "hmac-is-rfc-hmac", "MessageIntegrity::compute", "primitive", w, hex(&want1), format!("{c1:?}"));
+            }
+            if c2 != Ok(want2) {
+                ctx.violation("C04", "hmac-is-rfc-hmac", "MessageIntegritySha256::compute", "primitive", w, hex(&want2), format!("{c2:?}"));
+            }
+            if !v1 {
+                ctx.violation("C04", "genuine-validates", "MessageIntegrity::verify", "primitive", w, "Ok for the HMAC-SHA1 of the data".into(), "Err".into());
+            }
+            if v1bad || cross2 {
+                ctx.violation("C04", "tamper-detected", "MessageIntegrity::verify", "primitive", w, "Err for a value that is not the HMAC-SHA1 of the data".into(), format!("Ok (one bit damaged: {v1bad}, SHA-256 prefix offered: {cross2})"));
+            }
+            for (n, good, bad, badl) in v2 {
+                if !good {
+                    ctx.violation("C04", "genuine-validates", "MessageIntegritySha256::verify", &format!("primitive,len={n}"), w, format!("Ok for the first {n} bytes of the HMAC-SHA256"), "Err".into());
+                }
+                if bad || badl {
+                    ctx.violation("C04", "tamper-detected", "MessageIntegritySha256::verify", &format!("primitive,len={n}"), w, "Err for a damaged value".into(), format!("Ok (bit {damage} damaged: {bad}, last byte damaged: {badl})"));
+                }
+            }
+            if cross {
+                ctx.violation("C04", "tamper-detected", "MessageIntegritySha256::verify", "primitive,sha1-offered", w, "Err".into(), "Ok".into());
+            }
+            ctx.count("primitive-checks");
+        }
+    }
+}
+
 pub fn run(ctx: &mut Ctx) {
     let quick = ctx.tier == Tier::Quick;
+    {
+        let np = ctx.n(6_000, 200_000);
+        let mut rng = ctx.rng("primitives", 0);
+        for i in 0..np {
+            let dl = match i % 5 {
+                0 => rng.usize(4),
+                1 => *rng.pick(&[55usize, 56, 63, 64, 65, 119, 120, 127, 128, 129]),
+                2 => rng.usize(2_000),
+                _ => rng.usize(200),
+            };
+            let kl = match i % 7 {
+                0 => 0,
+                1 => *rng.pick(&[1usize, 16, 20, 32, 63, 64, 65, 127, 128, 129, 200]),
+                _ => rng.usize(80),
+            };
+            let data: Vec<u8> = (0..dl).map(|_| rng.byte()).collect();
+            let key: Vec<u8> = (0..kl).map(|_| rng.byte()).collect();
+            check_primitives(ctx, &data, &key, rng.below(256) as u32);
+        }
+    }
     let n = ctx.n(2_400, 24_000);
     let mut rng = ctx.rng("sealed", 0);
     let mut done = 0u64;
@@ -464,6 +550,7 @@ pub fn run(ctx: &mut Ctx) {
             }
         }
     }
+    ctx.require("primitive-checks", 5_000);
     ctx.require("sealed-messages", 100);
     ctx.require("builder-sealed", 50);
     ctx.require("reference-sealed", 50);
@@ -488,6 +575,12 @@ pub fn replay(ctx: &mut Ctx, w: &Value) -> Result<(), String> {
                     check_genuine(ctx, &buf, &creds, what);
                 }
             }
+            Ok(())
+        }
+        Some("primitive") => {
+            let data = crate::refimpl::crypto::unhex(w["data"].as_str().ok_or("data")?).ok_or("hex")?;
+            let key = crate::refimpl::crypto::unhex(w["key"].as_str().ok_or("key")?).ok_or("hex")?;
+            check_primitives(ctx, &data, &key, w["damage"].as_u64().unwrap_or(0) as u32);
             Ok(())
         }
         Some("program") => {
